@@ -138,6 +138,16 @@ VF_HARNESS(shift_right) {   // copy_backward(first, last - 1, last): iterator - 
   std::copy_backward(e.ref, e.ref + e.n - 1, e.ref + e.n);
   check_contents(e); vf_reach("shift_right");
 }
+VF_HARNESS(tail_subrange) {   // algorithms on an inner sub-range [prev(hi, k), hi) with hi = first + j: std::prev / std::advance / it + (-k) move a random-access iterator by += with a NEGATIVE offset, from the end AND from inner positions
+  Env e = setup(0); L j = vf_nondet_long(); vf_assume(0 <= j && j <= e.n); L k = vf_nondet_long(); vf_assume(0 <= k && k <= j); L which = vf_range(0, 2);
+  { RANGE_OF(e, g_m); auto hi = first + j;
+    if(which == 0) { std::fill(std::prev(hi, k), hi, 7); }
+    else if(which == 1) { auto lo = hi; std::advance(lo, -k); std::reverse(lo, hi); }
+    else { auto lo = hi + (-k); std::transform(lo, hi, lo, [](int x) { return 2 * x + 1; }); } }
+  if(which == 0) { std::fill(e.ref + j - k, e.ref + j, 7); } else if(which == 1) { std::reverse(e.ref + j - k, e.ref + j); }
+  else { std::transform(e.ref + j - k, e.ref + j, e.ref + j - k, [](int x) { return 2 * x + 1; }); }
+  check_contents(e); vf_reach("tail_subrange");
+}
 VF_HARNESS(fill_transform) {
   Env e = setup(0); L which = vf_range(0, 1);
   { RANGE_OF(e, g_m); if(which == 0) { std::fill(first, last, 7); } else { std::transform(first, last, first, [](int x) { return 2 * x + 1; }); } }
